@@ -42,6 +42,16 @@ prop('C18', 'other',
      'time response outside.',
      'SMT (z3 nonlinear real arithmetic) Laplace-domain identities over block equations', 'DESIGN.md 3/C18')
 
+prop('C12', 'other',
+     'Real System.connectivity and ConnMan.init/act executed under pysym on symbolic 0/1 statuses of lines, jumpers, slacks and '
+     'buses of real small Systems; z3 splits every on/off pattern (exhaustive within the catalogue) and decides per path that '
+     'isolated buses = degree-0 nodes, island sets = connected components (closure formula), islands form a partition, slack '
+     'classification is right, neutralising addresses are the bus a/v addresses, and exactly the devices attached to an offline '
+     'bus are turned off; no exception on any pattern.',
+     'kvxopt replaced by a dictionary stub during exploration (differential-tested each run; replays use real kvxopt); '
+     'topologies <= 5 buses / 6 series devices / 2 slacks.',
+     'path-forking symbolic execution of real code on symbolic statuses + z3 per-path queries', 'DESIGN.md 3/C12')
+
 ORDER = ['C%02d' % i for i in range(1, 21)]
 checks, na = [], []
 for pid in ORDER:
